@@ -11,6 +11,7 @@ struct Case {
   bytes dk, dv;
   int dK = 0, dV = 0;
   bool exec_tool = false;  // run the stand-alone mtbl_dump binary instead of the linked-in main
+  bool text_mode = false;  // default (quoted) output instead of -x
 
   bool valid() const {
     if (!cfg.null_opts && cfg.restart < 1) return false;
@@ -24,7 +25,7 @@ struct Case {
     Out o;
     o << "property C01\n" << cfg.ser() << "\n";
     o << "dump k=" << (dk.empty() ? "-" : hex(dk)) << " v=" << (dv.empty() ? "-" : hex(dv)) << " K=" << dK << " V=" << dV
-      << " exec=" << exec_tool << "\n";
+      << " exec=" << exec_tool << " text=" << text_mode << "\n";
     ser_entries(o, entries);
     return o.str();
   }
@@ -42,6 +43,7 @@ struct Case {
           if (k == "K") c.dK = atoi(v.c_str());
           if (k == "V") c.dV = atoi(v.c_str());
           if (k == "exec") c.exec_tool = atoi(v.c_str());
+          if (k == "text") c.text_mode = atoi(v.c_str());
         }
       }
     }
@@ -66,6 +68,7 @@ static Case gen_case() {
     if (chance(30)) c.dV = one_of<int>({1, 2, 100, 128, 401});
   }
   c.exec_tool = chance(1);
+  c.text_mode = chance(25);
   return c;
 }
 
@@ -108,6 +111,46 @@ static bool parse_dump_x(const std::string &out, KVs &res, std::string &err) {
     }
     if (pos >= out.size() || out[pos] != '\n') {
       err = "missing newline at offset " + std::to_string(pos);
+      return false;
+    }
+    pos++;
+    res.push_back(kv);
+  }
+  return true;
+}
+
+// default output format (man mtbl_dump): "key" "value" per line, double quotes and unprintable bytes escaped
+// in Python string literal syntax (\" and \xNN).  A literal backslash is printed raw, so lines are only decoded
+// when the original entry holds no backslash; the line count is checked always.
+static bool parse_dump_text(const std::string &out, KVs &res, std::string &err) {
+  size_t pos = 0;
+  auto parse_q = [&](bytes &b) -> bool {
+    if (pos >= out.size() || out[pos] != '"') return false;
+    pos++;
+    b.clear();
+    while (pos < out.size() && out[pos] != '"') {
+      if (out[pos] == '\n') return false;
+      if (out[pos] == '\\' && pos + 1 < out.size() && out[pos + 1] == '"') {
+        b.push_back('"');
+        pos += 2;
+      } else if (out[pos] == '\\' && pos + 3 < out.size() && out[pos + 1] == 'x' && hexval(out[pos + 2]) >= 0 && hexval(out[pos + 3]) >= 0) {
+        b.push_back((char)(hexval(out[pos + 2]) * 16 + hexval(out[pos + 3])));
+        pos += 4;
+      } else b.push_back(out[pos++]);
+    }
+    if (pos >= out.size()) return false;
+    pos++;
+    return true;
+  };
+  while (pos < out.size()) {
+    KV kv;
+    if (!parse_q(kv.first) || pos >= out.size() || out[pos] != ' ') {
+      err = "malformed line near offset " + std::to_string(pos);
+      return false;
+    }
+    pos++;
+    if (!parse_q(kv.second) || pos >= out.size() || out[pos] != '\n') {
+      err = "malformed line near offset " + std::to_string(pos);
       return false;
     }
     pos++;
@@ -172,7 +215,8 @@ static void body(const Case &c, Result &r) {
   // mtbl_dump -x
   if (!r.fail) {
     std::string fpath = c.cfg.by_path && !path.empty() ? path : "/proc/self/fd/" + std::to_string(fd);
-    std::vector<std::string> args = {"mtbl_dump", "-x"};
+    std::vector<std::string> args = {"mtbl_dump"};
+    if (!c.text_mode) args.push_back("-x");
     if (!c.dk.empty()) {
       args.push_back("-k");
       args.push_back(hex(c.dk));
@@ -196,7 +240,12 @@ static void body(const Case &c, Result &r) {
     else {
       KVs dumped;
       std::string perr;
-      if (!parse_dump_x(out, dumped, perr)) r.failf("mtbl_dump -x output malformed: %s", perr.c_str());
+      bool any_backslash = false;
+      for (auto &kv : want)
+        if (kv.first.find('\\') != bytes::npos || kv.second.find('\\') != bytes::npos) any_backslash = true;
+      bool count_only = c.text_mode && any_backslash;  // a raw backslash makes the quoted form ambiguous: compare the line count only
+      bool parsed = count_only ? true : c.text_mode ? parse_dump_text(out, dumped, perr) : parse_dump_x(out, dumped, perr);
+      if (!parsed) r.failf("mtbl_dump %soutput malformed: %s", c.text_mode ? "" : "-x ", perr.c_str());
       else {
         KVs filtered;
         for (auto &kv : want) {
@@ -205,6 +254,12 @@ static void body(const Case &c, Result &r) {
           if ((int)kv.first.size() < c.dK || (int)kv.second.size() < c.dV) continue;
           filtered.push_back(kv);
         }
+        if (count_only) {
+          size_t lines = (size_t)std::count(out.begin(), out.end(), '\n');
+          if (lines != filtered.size()) r.failf("mtbl_dump printed %zu lines for %zu matching entries", lines, filtered.size());
+          dumped = filtered;
+          r.tag("dump_text_mode_count_only");
+        } else if (c.text_mode) r.tag("dump_text_mode");
         std::string dd = diff_kvs(dumped, filtered);
         if (!dd.empty()) r.failf("mtbl_dump -x%s output differs from the expected subsequence: %s",
                                  (c.dk.empty() && c.dv.empty() && !c.dK && !c.dV) ? "" : " (filtered)", dd.c_str());
